@@ -209,6 +209,18 @@ pub fn check_graph(gs: &GraphSpec, count: &mut SeqCount) -> Result<Option<SeqVio
                 msg: format!("iter_insertion gave {ids:?}"),
             });
         }
+        // the iterator is ExactSize + DoubleEnded: length and back-to-front order, too
+        let it = g.iter_insertion();
+        let len = it.len();
+        let back: Vec<usize> = it.rev().map(|f| f.id).collect();
+        count.traversals += 1;
+        if len != n || back != want.iter().rev().copied().collect::<Vec<_>>() {
+            return Some(SeqViolation {
+                class: "insertion-order",
+                op: "iter_insertion().rev()".into(),
+                msg: format!("iter_insertion: len {len}, reversed {back:?}"),
+            });
+        }
         let ids: Vec<usize> = g.iter_insertion_mut().map(|f| f.id).collect();
         count.traversals += 1;
         if ids != want {
